@@ -3,6 +3,7 @@ package main
 import (
 	"bufio"
 	"fmt"
+	"github.com/mmcloughlin/avo/build"
 	"go/ast"
 	"go/constant"
 	"go/importer"
@@ -236,6 +237,69 @@ func c19(c *Ctx) {
 		o.AddCase(Case{Key: fmt.Sprintf("line:attr=%d", a), Desc: fmt.Sprintf("attr=%d TEXT=%q GLOBL=%q", a, tl, gl), Input: map[string]any{"attr": a, "frame": frame, "globl_size": gsz}, Nontrivial: a != 0})
 	}
 	nLineCases := len(lineRows)
+
+	// the same through the builder and the whole compile pipeline, with frames of every size: the directive
+	// printed for a function evaluates to the flags that were requested for it
+	{
+		macros := map[string]uint64{}
+		for _, d := range translateTextflagH() {
+			if v, err := strconv.ParseUint(d[1], 0, 64); err == nil {
+				macros[d[0]] = v
+			}
+		}
+		frames := []int{0, 8, 24, 64, 120, 128, 136, 200, 256, 512, 792, 800, 4096}
+		flagSets := []attr.Attribute{0, attr.NOSPLIT, attr.NOSPLIT | attr.NOPTR, attr.DUPOK, attr.NOSPLIT | attr.DUPOK | attr.WRAPPER, attr.NEEDCTXT, attr.NOSPLIT | 128, attr.NOFRAME | attr.NOSPLIT, attr.TOPFRAME | attr.NOSPLIT}
+		nbad := 0
+		for fi, fr := range frames {
+			for ai, a := range flagSets {
+				if a&attr.NOFRAME != 0 && fr != 0 {
+					continue
+				}
+				ctx := build.NewContext()
+				ctx.Function("f")
+				ctx.Attributes(a)
+				ctx.SignatureExpr("func(x uint64) uint64")
+				v := ctx.GP64()
+				ctx.Load(ctx.Param("x"), v)
+				for rest := fr; rest > 0; {
+					sz := 8 * (1 + (fi+ai)%5)
+					if sz > rest {
+						sz = rest
+					}
+					ctx.MOVQ(v, ctx.AllocLocal(sz))
+					rest -= sz
+				}
+				ctx.Store(v, ctx.ReturnIndex(0))
+				ctx.RET()
+				f, err := ctx.Result()
+				if err == nil {
+					err = pass.Compile.Execute(f)
+				}
+				var out []byte
+				if err == nil {
+					out, err = printer.NewGoAsm(cfg).Print(f)
+				}
+				idx := o.AddCase(Case{Key: fmt.Sprintf("compiled:attr=%d:frame=%d", uint64(a), fr), Desc: fmt.Sprintf("function with flags %d and %d bytes of locals, compiled and printed", uint64(a), fr), Input: map[string]any{"attr": uint64(a), "locals": fr}, Nontrivial: true})
+				if err != nil {
+					o.Plan.GoViolations = append(o.Plan.GoViolations, GoViolation{Key: "attr:compiled-flags", Desc: fmt.Sprintf("case %d: flags %d with %d bytes of locals: %v", idx, uint64(a), fr, err), Replay: map[string]any{"attr": uint64(a), "locals": fr}})
+					continue
+				}
+				for _, ln := range strings.Split(string(out), "\n") {
+					if !strings.HasPrefix(ln, "TEXT ") {
+						continue
+					}
+					got, okf := uint64(0), true
+					if fm := textFlagsRe.FindStringSubmatch(ln); fm != nil && fm[1] != "" {
+						got, okf = evalFlags(fm[1], macros)
+					}
+					if (!okf || got != uint64(a)) && nbad < 6 {
+						nbad++
+						o.Plan.GoViolations = append(o.Plan.GoViolations, GoViolation{Key: "attr:compiled-flags", Desc: fmt.Sprintf("case %d: a function requested with flags %d and %d bytes of locals is declared %q after pass.Compile, which evaluates to %d", idx, uint64(a), fr, ln, got), Replay: map[string]any{"attr": uint64(a), "locals": fr, "text": string(out)}})
+					}
+				}
+			}
+		}
+	}
 
 	var inclRows []string
 	inclNeeded := 0
